@@ -12,6 +12,7 @@ CONSTANTS
   OrderedIteration = TRUE
   SummaryStateless = TRUE
   WeightsRebuilt = TRUE
+  FeedCopied = TRUE
 INVARIANT CallOK
 INVARIANT AbstractFunctional
 CONSTRAINT Finished
